@@ -2,17 +2,18 @@
 # usage: tools/seeds_regress.sh [ids...] — for every seeded change: scratch worktree of /repo HEAD + patch, run the checks
 # named in meta.json (expected_to_be_caught_by) against it (PYTHONPATH=<worktree>), remove the worktree.  /repo is not touched.
 cd "$(dirname "$0")/.."
-ids=${@:-$(ls seeded)}
-mkdir -p /tmp/seedrun
+export ROOT=$PWD RUN=/tmp/seedrun-$(basename $PWD)
+ids=${@:-$(ls seeded | grep -v whitebox; ls seeded/whitebox 2>/dev/null | sed "s|^|whitebox/|")}
+mkdir -p $RUN
 one() {
-  id=$1; wt=/tmp/seedrun/$id
+  id=$1; wt=$RUN/$(echo $id | tr / _)
   git -C /repo worktree add --detach $wt HEAD >/dev/null 2>&1 || { echo "$id: cannot create worktree"; return; }
-  if git -C $wt apply /verif/seeded/$id/patch.diff 2>/tmp/seedrun/$id.err; then
-    props=$(python3 -c "import json;print(' '.join(json.load(open('/verif/seeded/$id/meta.json'))['expected_to_be_caught_by']))")
+  if git -C $wt apply $ROOT/seeded/$id/patch.diff 2>$wt.err; then
+    props=$(python3 -c "import json;print(' '.join(json.load(open('$ROOT/seeded/$id/meta.json'))['expected_to_be_caught_by']))")
     out=$(tools/try_seed_wt.sh $wt $props 2>&1 | tr '\n' ' ')
     echo "$id: $out"
   else
-    echo "$id: PATCH DOES NOT APPLY: $(head -2 /tmp/seedrun/$id.err | tr '\n' ' ')"
+    echo "$id: PATCH DOES NOT APPLY: $(head -2 $wt.err | tr '\n' ' ')"
   fi
   git -C /repo worktree remove --force $wt
 }
